@@ -2,10 +2,10 @@ SPECIFICATION Spec
 CONSTANTS
   MaxPub = 3
   HistSize = 2
-  MaxFaults = 2
-  Kinds = {"pos"}
+  MaxFaults = 1
+  Kinds = {"cache"}
   UrgentAsync = FALSE
   RecLimit = 0
 VIEW View
-INVARIANTS TypeOK C01 C02 C03 C10 C16 PosConsistent
+INVARIANTS TypeOK C01 C03 C10 C16 PosConsistent
 CHECK_DEADLOCK FALSE
